@@ -274,4 +274,14 @@ def explore(run, tier):
                 rows = [{'MTI': '1240', 'DE2': '5' * 16, 'DE7': f'{i:010d}', 'DE38': 'AB12 Z'} for i in range(3)]
                 cases.append({'rows': rows, 'cols': ['MTI', 'DE2', 'DE7', 'DE38'], 'codec': codec, 'b': b, 'cli': True,
                               'cfgfile': how})
+    # cells that hold LINES (a quoted cell may contain line feeds, also two in a row and lines of blanks only): a cell is a
+    # value, whatever it looks like to a line-oriented reader; function and command entry points
+    if 'PDS0023' in cols:
+        for codec in ('latin_1', 'cp500'):
+            for b in (0, 1):
+                for cli in (True, False):
+                    rows = [{'MTI': '1240', 'DE2': '5' * 16, 'PDS0023': v, 'DE42': w.ljust(15)}
+                            for v, w in (('A\n\nB', 'M1'), ('A\n  \nB', 'LINE\n\nTWO'), ('\nX', ' \n \n '), ('X\n', 'M4'),
+                                         ('one,\n"two"\n\n\nthree', 'M5'), ('plain', 'M6'))]
+                    cases.append({'rows': rows, 'cols': ['MTI', 'DE2', 'DE42', 'PDS0023'], 'codec': codec, 'b': b, 'cli': cli})
     run.correspond(__name__, cases, use_model=run.use_model, chunk=12)
